@@ -21,6 +21,8 @@ import (
 	"sort"
 	"strconv"
 	"strings"
+	"sync"
+	"sync/atomic"
 	"testing"
 	"text/template"
 	"time"
@@ -41,12 +43,27 @@ type vnCall struct {
 	good    bool
 }
 
+// vnGate makes the next Notify call of a history block until the probe releases it (step "b": a slow module).
+type vnGate struct {
+	armed   int32
+	entered chan struct{}
+	release chan struct{}
+	mu      sync.Mutex
+}
+
+func (g *vnGate) arm() {
+	g.entered = make(chan struct{})
+	g.release = make(chan struct{})
+	atomic.StoreInt32(&g.armed, 1)
+}
+
 // vnRecorder is the probe's Module: the lists and the name come from the module Configure() built, Notify records.
 type vnRecorder struct {
 	*NullNotifier
 	index       int
 	acceptGroup bool
 	calls       *[]vnCall
+	gate        *vnGate
 }
 
 func (m *vnRecorder) AcceptConsumerGroup(status *protocol.ConsumerGroupStatus) bool {
@@ -54,8 +71,23 @@ func (m *vnRecorder) AcceptConsumerGroup(status *protocol.ConsumerGroupStatus) b
 }
 
 func (m *vnRecorder) Notify(status *protocol.ConsumerGroupStatus, eventID string, startTime time.Time, stateGood bool) {
+	if atomic.CompareAndSwapInt32(&m.gate.armed, 1, 0) {
+		close(m.gate.entered)
+		select {
+		case <-m.gate.release:
+		case <-time.After(60 * time.Second):
+		}
+	}
+	m.gate.mu.Lock()
+	defer m.gate.mu.Unlock()
 	*m.calls = append(*m.calls, vnCall{module: m.index, cluster: status.Cluster, group: status.Group,
 		status: int(status.Status), id: eventID, start: startTime, good: stateGood})
+}
+
+type vnCycle struct {
+	clusterList []string
+	lists       map[string][]string
+	closedReply map[string]bool
 }
 
 type vnToks struct {
@@ -152,6 +184,7 @@ func vnHistory(t *vnToks) (res string) {
 		return fmt.Sprintf("BADCONFIG %d modules", len(nc.modules))
 	}
 	var calls []vnCall
+	gate := &vnGate{}
 	recs := make([]*vnRecorder, nm)
 	for i := 0; i < nm; i++ {
 		name := "m" + strconv.Itoa(i+1)
@@ -159,7 +192,7 @@ func vnHistory(t *vnToks) (res string) {
 		if !ok {
 			return "BADCONFIG module " + name
 		}
-		recs[i] = &vnRecorder{NullNotifier: null, index: i + 1, acceptGroup: acceptGroup[i], calls: &calls}
+		recs[i] = &vnRecorder{NullNotifier: null, index: i + 1, acceptGroup: acceptGroup[i], calls: &calls, gate: gate}
 		nc.modules[name] = recs[i]
 	}
 	nc.notifyModuleFunc = nc.notifyModule
@@ -216,6 +249,70 @@ func vnHistory(t *vnToks) (res string) {
 		return list, false
 	}
 
+	// the real processConsumerList, fed through its reply channel the way the storage module answers (the reply is ready:
+	// the channel is buffered, or already closed)
+	startGroupList := func(cluster string, list []string, closed bool) {
+		reply := make(chan interface{}, 1)
+		if closed {
+			close(reply)
+		} else {
+			reply <- list
+		}
+		nc.running.Add(1)
+		go nc.processConsumerList(cluster, reply)
+	}
+	readCycle := func() *vnCycle {
+		n := t.int()
+		spec := &vnCycle{clusterList: make([]string, n), lists: make(map[string][]string), closedReply: make(map[string]bool)}
+		for i := 0; i < n; i++ {
+			spec.clusterList[i] = "c" + strconv.Itoa(t.int())
+			list, closed := groupList()
+			if _, dup := spec.lists[spec.clusterList[i]]; !dup {
+				spec.lists[spec.clusterList[i]] = list
+				spec.closedReply[spec.clusterList[i]] = closed
+			}
+		}
+		return spec
+	}
+	// a whole refresh cycle through the real sendClusterRequest -> processClusterList -> processConsumerList, with the
+	// probe in the role of the storage module (as in TestCoordinator_sendClusterRequest); returns a channel closed when
+	// every storage request has been answered
+	startCycle := func(spec *vnCycle) chan struct{} {
+		served := make(chan struct{})
+		cur := nc
+		go func() {
+			defer close(served)
+			request := <-cur.App.StorageChannel
+			if request.RequestType != protocol.StorageFetchClusters {
+				panic("verif: expected StorageFetchClusters")
+			}
+			request.Reply <- spec.clusterList
+			for i := 0; i < len(spec.lists); i++ {
+				request := <-cur.App.StorageChannel
+				if request.RequestType != protocol.StorageFetchConsumers {
+					panic("verif: expected StorageFetchConsumers")
+				}
+				if spec.closedReply[request.Cluster] {
+					close(request.Reply)
+				} else {
+					request.Reply <- spec.lists[request.Cluster]
+				}
+			}
+		}()
+		go cur.sendClusterRequest()
+		return served
+	}
+
+	noteID := func(cluster, group string) {
+		if cl, ok := nc.clusters[cluster]; ok {
+			if cg, ok := cl.Groups[group]; ok && cg.ID != "" {
+				if _, ok := ids[cg.ID]; !ok {
+					ids[cg.ID] = len(ids) + 1
+				}
+			}
+		}
+	}
+
 	ns := t.int()
 	clock := t0
 	steps := make([]string, 0, ns)
@@ -255,64 +352,130 @@ func vnHistory(t *vnToks) (res string) {
 				}
 			}
 		case "g":
-			// the real processConsumerList, fed through its reply channel the way the storage module answers
 			cluster := "c" + strconv.Itoa(t.int())
 			list, closed := groupList()
-			reply := make(chan interface{})
-			nc.running.Add(1)
-			go nc.processConsumerList(cluster, reply)
-			if closed {
-				close(reply)
-			} else {
-				select {
-				case reply <- list:
-				case <-time.After(20 * time.Second):
-					panic("verif: processConsumerList did not read its reply channel")
-				}
-			}
+			startGroupList(cluster, list, closed)
 			nc.running.Wait()
 		case "c":
-			// a whole refresh cycle through the real sendClusterRequest -> processClusterList -> processConsumerList,
-			// with the probe in the role of the storage module (as in TestCoordinator_sendClusterRequest)
-			n := t.int()
-			clusterList := make([]string, n)
-			lists := make(map[string][]string)
-			closedReply := make(map[string]bool)
-			for i := 0; i < n; i++ {
-				clusterList[i] = "c" + strconv.Itoa(t.int())
-				list, closed := groupList()
-				if _, dup := lists[clusterList[i]]; !dup {
-					lists[clusterList[i]] = list
-					closedReply[clusterList[i]] = closed
-				}
-			}
-			served := make(chan struct{})
-			go func() {
-				defer close(served)
-				request := <-nc.App.StorageChannel
-				if request.RequestType != protocol.StorageFetchClusters {
-					panic("verif: expected StorageFetchClusters")
-				}
-				request.Reply <- clusterList
-				for i := 0; i < len(lists); i++ {
-					request := <-nc.App.StorageChannel
-					if request.RequestType != protocol.StorageFetchConsumers {
-						panic("verif: expected StorageFetchConsumers")
-					}
-					if closedReply[request.Cluster] {
-						close(request.Reply)
-					} else {
-						request.Reply <- lists[request.Cluster]
-					}
-				}
-			}()
-			nc.sendClusterRequest()
+			spec := readCycle()
+			served := startCycle(spec)
 			select {
 			case <-served:
 			case <-time.After(20 * time.Second):
 				panic("verif: the refresh cycle did not send the expected storage requests")
 			}
 			nc.running.Wait()
+		case "b":
+			// A response whose first Notify call is slow (the recorder blocks), during which a real refresh arrives from
+			// another goroutine and asks for the write lock; the module is released once the writer is pending.  In the
+			// unchanged code the refresh simply waits for the response to be finished.  Every wait has a deadline: a
+			// coordinator that does not finish the response is reported as STUCK.
+			p := pairs[t.int()]
+			status := t.int()
+			sub := t.next()
+			var gCluster string
+			var gList []string
+			var gClosed bool
+			var spec *vnCycle
+			if sub == "g" {
+				gCluster = "c" + strconv.Itoa(t.int())
+				gList, gClosed = groupList()
+			} else {
+				spec = readCycle()
+			}
+			refresh := func() chan struct{} {
+				if sub == "g" {
+					startGroupList(gCluster, gList, gClosed)
+					return nil
+				}
+				return startCycle(spec)
+			}
+			const deadline = 2500 * time.Millisecond
+			done := make(chan struct{})
+			entered := false
+			if _, ok := nc.clusters[p.cluster]; ok {
+				response := &protocol.ConsumerGroupStatus{Cluster: p.cluster, Group: p.group, Status: protocol.StatusConstant(status)}
+				gate.arm()
+				nc.quitChannel = make(chan struct{})
+				nc.running.Add(1)
+				go nc.responseLoop()
+				nc.evaluatorResponse <- response
+				nc.evaluatorResponse <- nil
+				close(nc.quitChannel)
+				cur := nc
+				go func() { cur.running.Wait(); close(done) }()
+				select {
+				case <-gate.entered:
+					entered = true
+				case <-done:
+				case <-time.After(deadline):
+					return fmt.Sprintf("STUCK step=%d the response was not handled within %v", s, deadline)
+				}
+				atomic.StoreInt32(&gate.armed, 0)
+			} else {
+				close(done)
+			}
+			var served chan struct{}
+			if entered {
+				// which lock the refresh will ask for in write mode
+				// (the handler of the response holds clusterLock and its own cluster's Lock for reading)
+				var lock *sync.RWMutex
+				if sub == "g" {
+					if cl, ok := nc.clusters[gCluster]; ok && gCluster == p.cluster {
+						lock = cl.Lock
+					}
+				} else {
+					lock = nc.clusterLock
+				}
+				served = refresh()
+				if lock != nil {
+					// until the writer is pending (a pending writer makes TryRLock fail)
+					for until := time.Now().Add(500 * time.Millisecond); time.Now().Before(until); {
+						if !lock.TryRLock() {
+							break
+						}
+						lock.RUnlock()
+						time.Sleep(20 * time.Microsecond)
+					}
+				} else {
+					time.Sleep(200 * time.Microsecond)
+				}
+				close(gate.release)
+				select {
+				case <-done:
+				case <-time.After(deadline):
+					gate.mu.Lock()
+					n := len(calls)
+					gate.mu.Unlock()
+					return fmt.Sprintf("STUCK step=%d the response (and the refresh that arrived during its first Notify call) did not finish within %v of the module returning; %d Notify calls had been made", s, deadline, n)
+				}
+			} else {
+				<-done
+				noteID(p.cluster, p.group) // (the refresh may delete the record that has just drawn an id)
+				served = refresh()
+			}
+			if served != nil {
+				select {
+				case <-served:
+				case <-time.After(deadline):
+					return fmt.Sprintf("STUCK step=%d the refresh cycle did not finish within %v", s, deadline)
+				}
+			}
+			fin := make(chan struct{})
+			cur := nc
+			go func() { cur.running.Wait(); close(fin) }()
+			select {
+			case <-fin:
+			case <-time.After(deadline):
+				return fmt.Sprintf("STUCK step=%d the refresh did not finish within %v", s, deadline)
+			}
+			if cl, ok := nc.clusters[p.cluster]; ok {
+				if cg, ok := cl.Groups[p.group]; ok && cg.ID != "" {
+					if _, ok := ids[cg.ID]; !ok {
+						ids[cg.ID] = len(ids) + 1
+					}
+				}
+			}
 		case "s":
 			// A refresh whose storage request is not taken off App.StorageChannel within the second that
 			// helpers.TimeoutSendStorageRequest waits (real time): n = -1 - the cluster-list request of sendClusterRequest;
@@ -430,6 +593,137 @@ func vnHistory(t *vnToks) (res string) {
 	return strings.Join(steps, " | ") + " || " + strings.Join(final, " ; ") + rxdiff
 }
 
+// vnConfig: the coordinator's construction of the REAL module classes.  One case = a notifier configuration with modules of
+// class email / http / null and their list keys (absent, present but empty, or a pattern), given to viper key by key
+// ("set") or as a TOML document ("toml"); the real Configure() builds the modules through getModuleForClass.  For every
+// module and group name the probe reads the constructed module's lists and AcceptConsumerGroup through the Module
+// interface, and drives the real checkAndSendResponseToModules with notifyModuleFunc replaced by a recorder (the way the
+// unit tests observe calls) to see which modules a result for that group is handed to.
+//   case:   cfg set|toml NM { class allow|-|@e deny|-|@e send_close }*NM NN { name { rx4 }*NM }*NN
+//   output: m<i>:<class built>:<name> g<j>=<a_set a_match d_set d_match>/<AcceptConsumerGroup>/<handed to notifyModule> ... ; m<i+1>...
+func vnConfig(t *vnToks) (res string) {
+	defer func() {
+		if r := recover(); r != nil {
+			res = fmt.Sprintf("CRASH %v", r)
+		}
+	}()
+	mode := t.next()
+	nm := t.int()
+	viper.Reset()
+	var doc strings.Builder
+	val := func(tok string) (string, bool) { // -> value, key present
+		if tok == "-" {
+			return "", false
+		}
+		if tok == "@e" {
+			return "", true
+		}
+		return tok, true
+	}
+	for i := 0; i < nm; i++ {
+		name := "m" + strconv.Itoa(i+1)
+		class := t.next()
+		allow, hasAllow := val(t.next())
+		deny, hasDeny := val(t.next())
+		sendClose := t.flag()
+		kv := [][2]string{{"class-name", class}, {"template-open", "open"}, {"template-close", "close"}}
+		switch class {
+		case "email":
+			kv = append(kv, [2]string{"server", "localhost"}, [2]string{"from", "burrow@verif.invalid"}, [2]string{"to", "nobody@verif.invalid"})
+		case "http":
+			kv = append(kv, [2]string{"url-open", "http://127.0.0.1:9/open"}, [2]string{"url-close", "http://127.0.0.1:9/close"})
+		}
+		if hasAllow {
+			kv = append(kv, [2]string{"group-allowlist", allow})
+		}
+		if hasDeny {
+			kv = append(kv, [2]string{"group-denylist", deny})
+		}
+		if mode == "toml" {
+			fmt.Fprintf(&doc, "[notifier.%s]\n", name)
+			for _, e := range kv {
+				fmt.Fprintf(&doc, "%s = '%s'\n", e[0], e[1])
+			}
+			fmt.Fprintf(&doc, "send-close = %v\n", sendClose)
+			if class == "email" {
+				fmt.Fprintf(&doc, "port = 25\n")
+			}
+		} else {
+			for _, e := range kv {
+				viper.Set("notifier."+name+"."+e[0], e[1])
+			}
+			viper.Set("notifier."+name+".send-close", sendClose)
+			if class == "email" {
+				viper.Set("notifier."+name+".port", 25)
+			}
+		}
+	}
+	if mode == "toml" {
+		viper.SetConfigType("toml")
+		if err := viper.ReadConfig(strings.NewReader(doc.String())); err != nil {
+			return "BADCONFIG toml: " + err.Error()
+		}
+	}
+
+	nc := &Coordinator{Log: zap.NewNop()}
+	nc.App = &protocol.ApplicationContext{Logger: zap.NewNop()}
+	nc.templateParseFunc = func(filenames ...string) (*template.Template, error) {
+		return template.New("verif").Parse("")
+	}
+	nc.Configure()
+	if len(nc.modules) != nm {
+		return fmt.Sprintf("BADCONFIG %d modules", len(nc.modules))
+	}
+	var handed []string
+	nc.notifyModuleFunc = func(module Module, status *protocol.ConsumerGroupStatus, startTime time.Time, eventID string) {
+		defer nc.running.Done()
+		handed = append(handed, module.GetName())
+	}
+	nc.clusters["c1"] = &clusterGroups{Lock: &sync.RWMutex{}, Groups: make(map[string]*consumerGroup)}
+
+	nn := t.int()
+	out := make([]string, nm)
+	for i := 0; i < nm; i++ {
+		name := "m" + strconv.Itoa(i+1)
+		class := "?"
+		switch nc.modules[name].(type) {
+		case *EmailNotifier:
+			class = "email"
+		case *HTTPNotifier:
+			class = "http"
+		case *NullNotifier:
+			class = "null"
+		}
+		out[i] = fmt.Sprintf("m%d:%s:%s", i+1, class, nc.modules[name].(Module).GetName())
+	}
+	for g := 0; g < nn; g++ {
+		group := t.next()
+		for i := 0; i < nm; i++ {
+			t.next() // the expected outcome (for the model)
+		}
+		nc.clusters["c1"].Groups[group] = &consumerGroup{LastNotify: make(map[string]time.Time)}
+		response := &protocol.ConsumerGroupStatus{Cluster: "c1", Group: group, Status: protocol.StatusError}
+		handed = handed[:0]
+		nc.running.Add(1)
+		nc.checkAndSendResponseToModules(response)
+		for i := 0; i < nm; i++ {
+			name := "m" + strconv.Itoa(i+1)
+			module := nc.modules[name].(Module)
+			al, dl := module.GetGroupAllowlist(), module.GetGroupDenylist()
+			got := []byte{vnBit(al != nil), vnBit(al != nil && al.MatchString(group)),
+				vnBit(dl != nil), vnBit(dl != nil && dl.MatchString(group))}
+			n := 0
+			for _, h := range handed {
+				if h == name {
+					n++
+				}
+			}
+			out[i] += fmt.Sprintf(" g%d=%s/%c/%d", g, got, vnBit(module.AcceptConsumerGroup(response)), n)
+		}
+	}
+	return strings.Join(out, " ; ")
+}
+
 func TestVerifProbeNotifier(t *testing.T) {
 	casesPath, outPath := os.Getenv("VERIF_CASES"), os.Getenv("VERIF_OUT")
 	if casesPath == "" || outPath == "" {
@@ -459,6 +753,8 @@ func TestVerifProbeNotifier(t *testing.T) {
 		switch tk.next() {
 		case "hist", "hist0":
 			fmt.Fprintln(w, vnHistory(tk))
+		case "cfg":
+			fmt.Fprintln(w, vnConfig(tk))
 		default:
 			t.Fatalf("unknown case kind in %q", line)
 		}
